@@ -115,7 +115,7 @@ package main
 // The reverse proxy targets exactly the configured backend host over http, flushes streamed bodies at least every
 // 100 ms (C05: chunks are not held back), keeps httputil's default error handler (which answers 502 when the backend
 // cannot be reached, C07), and rewrites responses only through the shim-script injector and only when that is enabled.
-//@ func hostProxy props(C05,C07,C13,C14)
+//@ func hostProxy props(C02,C05,C07,C13,C14)
 //@   ghost rp *httputil.ReverseProxy = nil
 //@   ghost shims int = 0
 //@   call httputil.NewSingleHostReverseProxy
@@ -124,6 +124,7 @@ package main
 //@   call (*sessions.Cache).SessionHandler
 //@     assert[C05:streamed-bodies-flushed-at-least-every-100ms] rp != nil && arg1 == box(rp) && rp.FlushInterval != 0 && rp.FlushInterval <= 100000000
 //@     assert[C07:default-502-error-handler-kept] rp.ErrorHandler == nil
+//@     assert[C02:backend-reached-through-the-single-host-director-only] rp != nil && arg1 == box(rp) && rp.Rewrite == nil
 //@   call websockets.ShimBody
 //@     assert[C14:script-injector-only-when-enabled] injectShimCode && shimPath != "" && arg0 == shimPath && shims == 0
 //@     do shims = shims + 1
@@ -131,3 +132,4 @@ package main
 //@     assert[C14:responses-rewritten-only-by-the-script-injector] rp != nil && (shims == 0 ==> rp.ModifyResponse == nil) && rp.Rewrite == nil
 //@     assert[C05:flush-interval-kept] rp.FlushInterval != 0 && rp.FlushInterval <= 100000000
 //@     assert[C07:error-handler-kept] rp.ErrorHandler == nil
+//@     assert[C02:no-rewrite-hook] rp != nil && rp.Rewrite == nil
